@@ -701,6 +701,11 @@ class Engine:
             return z3.And(SQ.length(b.t) == len(a), *[self.equal(x, V(b.ty.elem, SQ.at(b.t, i)), n, st) for i, x in enumerate(a)])
         if isinstance(b, tuple) and isinstance(a, V):
             return self.equal(b, a, n, st)
+        for x, y in ((a, b), (b, a)):
+            if isinstance(x, V) and isinstance(y, PyConst):
+                hook = self.reg.lookup_method(getattr(x.ty, "name", ""), "__eq_other__")      # e.g. `values.dtype == object`
+                if hook is not None:
+                    return hook(self, x, y, n, st)
         raise OutOfSubset(n, f"== on {a!r} / {b!r}")
 
     def _oos(self, n, why):
